@@ -28,6 +28,10 @@ struct DBusBabysitter { int x; };
 #ifndef OP
 #define OP 0
 #endif
+#ifndef EXA
+#define EXA "/x/demo s"
+#define EXB "/x/demo serve"
+#endif
 #ifndef PEND
 #define PEND 1
 #endif
@@ -43,7 +47,17 @@ void *_dbus_hash_table_lookup_string (DBusHashTable *h, const char *k)
   return 0;
 }
 dbus_bool_t _dbus_hash_table_insert_string (DBusHashTable *h, char *k, void *v) { if (h == &h_env) return 1; VF_ASSERT (h == &h_pending, "only pending activations (and environment variables) are inserted"); pending_inserts++; pend_obj = v; pend_in_hash = 1; return 1; }
-dbus_bool_t _dbus_hash_table_remove_string (DBusHashTable *h, const char *k) { if (h == &h_pending) { pend_in_hash = 0; return 1; } return 0; }
+static BusPendingActivation *pend2_obj; static int pend2_in_hash;
+dbus_bool_t _dbus_hash_table_remove_string (DBusHashTable *h, const char *k)
+{ if (h == &h_pending) { if (pend2_obj && pend2_in_hash && k == pend2_obj->service_name) pend2_in_hash = 0; else pend_in_hash = 0; return 1; } return 0; }
+void _dbus_hash_iter_init (DBusHashTable *h, DBusHashIter *it) { it->dummy5 = -1; }
+dbus_bool_t _dbus_hash_iter_next (DBusHashIter *it) { int i; for (i = it->dummy5 + 1; i < 2; i++) if (i == 0 ? pend_in_hash : pend2_in_hash) { it->dummy5 = i; return 1; } it->dummy5 = 2; return 0; }
+void *_dbus_hash_iter_get_value (DBusHashIter *it) { return it->dummy5 == 0 ? (void *) pend_obj : (void *) pend2_obj; }
+/* babysitter of the failing activation: the child exited with a non-zero status */
+DBusBabysitter *_dbus_babysitter_ref (DBusBabysitter *s) { return s; }
+dbus_bool_t _dbus_babysitter_get_child_exited (DBusBabysitter *s) { return 1; }
+void _dbus_babysitter_set_child_exit_error (DBusBabysitter *s, DBusError *e) { e->name = DBUS_ERROR_SPAWN_CHILD_EXITED; e->message = "exited"; }
+dbus_bool_t _dbus_babysitter_get_child_exit_status (DBusBabysitter *s, int *st) { *st = 1; return 1; }
 char **_dbus_hash_table_to_array (DBusHashTable *h, char d) { static char *envp[1]; return envp; }
 static int spawn_calls, spawn_ok, parse_ok, n_dispatch, dispatch_order[4], dispatch_addr_ok = 1, n_err_replies, err_reply_for[4], n_hooks, tok_ctx, tok_reg, tok_svc;
 static struct DBusConnection owner = { 9, 1, 1 }, snd[3] = { { 0, 1, 1 }, { 1, 1, 1 }, { 2, 1, 1 } };
@@ -134,7 +148,24 @@ void harness (void)
       pend_obj = pa; pend_in_hash = 1;
     }
   err.name = 0; err.message = 0;
-#if OP == 0
+#if OP == 3
+  /* C19: a start that fails errors exactly the senders waiting for THAT start (and for other names with the very same Exec line, which share its fate by
+   * design) — a pending activation whose Exec line merely begins the same way is left alone.  Real pending_activation_finished_cb + pending_activation_failed. */
+  {
+    static int sitter_tok; BusPendingActivation *pb = calloc (1, sizeof (BusPendingActivation)); BusPendingActivationEntry *pe2 = calloc (1, sizeof (BusPendingActivationEntry)); DBusList *l2 = calloc (1, sizeof (DBusList));
+    static char exa[] = EXA, exb[] = EXB, nb[] = "c.d"; int same = strcmp (EXA, EXB) == 0, errs_a = 0, errs_b = 0;
+    VF_ASSUME (pb && pe2 && l2 && pa != 0);
+    pa->exec = exa; pa->babysitter = (DBusBabysitter *) &sitter_tok;
+    pb->refcount = 1; pb->activation = &act; pb->service_name = nb; pb->exec = exb; pb->n_entries = 1;
+    pe2->activation_message = &held[2]; pe2->connection = &snd[2]; pe2->auto_activation = 1; snd[2].connected = 1; l2->data = pe2; l2->next = l2->prev = l2; pb->entries = l2;
+    pend2_obj = pb; pend2_in_hash = 1;
+    pending_activation_finished_cb ((DBusBabysitter *) &sitter_tok, pa);
+    for (i = 0; i < 4; i++) if (i < n_err_replies) { if (err_reply_for[i] / 10 == held[2].id) errs_b++; else errs_a++; }
+    VF_ASSERT (!pend_in_hash, "the failed activation is removed");
+    VF_ASSERT (pend2_in_hash == !same && errs_b == (same ? 1 : 0), "another pending activation fails with it only if its Exec line is the same string; otherwise it stays pending and its sender gets no error");
+    { int k = 0; for (i = 0; i < E; i++) if (snd[i].connected) k++; VF_ASSERT (errs_a == k, "every connected sender waiting for the failed start gets exactly one error"); }
+  }
+#elif OP == 0
   ok = bus_activation_activate_service (&act, &snd[2], (BusTransaction *) &tok_ctx, TRUE, &newmsg, "a.b", &err);
 #if PEND
     {
